@@ -259,6 +259,13 @@ var c01Tmpls = []c01Tmpl{
 	{"(let ((acc 0)) (dotimes (i 4 acc) (set! acc (+ acc i))))", func(a, b, c int) string { return "6" }, nil},
 	{"(thread-first a (- b) (* c))", func(a, b, c int) string { return sI((a - b) * c) }, nil},
 	{"(thread-last a (- b) (* c))", func(a, b, c int) string { return sI(c * (b - a)) }, nil},
+	// a &rest parameter is the callee's OWN list, whatever route the arguments came by: sorting it in
+	// place never reorders the list the caller applied the function to
+	{"(defun srt (&rest xs) (stable-sort < xs)) (let ((l (list a b c))) (apply srt l) l)", func(a, b, c int) string { return "'(" + sI(a) + " " + sI(b) + " " + sI(c) + ")" }, nil},
+	{"(defun srt (&rest xs) (stable-sort < xs)) (let ((l (list a b c))) (unpack srt l) (apply srt 0 l) (apply 'srt l) l)", func(a, b, c int) string { return "'(" + sI(a) + " " + sI(b) + " " + sI(c) + ")" }, nil},
+	{"(defun srt (x &rest xs) (stable-sort < xs) x) (let ((l (list a b c))) (list (apply srt l) (funcall srt a b c) l))", func(a, b, c int) string {
+		return "'(" + sI(a) + " " + sI(a) + " '(" + sI(a) + " " + sI(b) + " " + sI(c) + "))"
+	}, nil},
 }
 
 // program templates with symbolic integer leaves against hand-compiled reference semantics:
